@@ -202,6 +202,7 @@ impl State {
             State::ActiveIdle { .. }
                 | State::ListenToken { .. }
                 | State::UseToken { .. }
+                | State::ClaimToken { .. }
                 | State::AwaitDataResponse { .. }
                 | State::CheckTokenPass { .. }
                 | State::AwaitStatusResponse { .. }
